@@ -3,6 +3,7 @@ package c30
 import (
 	"encoding/json"
 	"fmt"
+	"regexp"
 	"sort"
 	"strings"
 
@@ -13,11 +14,11 @@ import (
 // The history relation: the build of a source P must not depend on what the
 // process built before. A history case is P plus a sequence Q1..Qk of OTHER
 // sources (programs and templates mixed, some of which fail to build). The
-// driver runs it in three fresh worker processes, one per order:
+// driver runs it in two fresh worker processes, one per order:
 //
-//	"P"   : P                      (the baseline: nothing was built before)
+//	"PQP" : P, Q1 .. Qk, P         (the first build is the baseline: nothing was built
+//	                                before it; before / after are compared in the worker)
 //	"QP"  : Q1 .. Qk, P            (P built for the first time after the others)
-//	"PQP" : P, Q1 .. Qk, P         (before / after, compared inside the worker too)
 //
 // and compares disassembly, UsedVars, run output and run error of every build of
 // P. The same relation is applied, at no extra cost, to all ordinary cases: the
@@ -98,7 +99,9 @@ func workHistory(cd *caseData) core.Result {
 	return res
 }
 
-var histOrders = []string{"P", "QP", "PQP"}
+// The first build of order PQP is the baseline (nothing was built before it in
+// its process), so a separate process for order "P" is not needed.
+var histOrders = []string{"PQP", "QP"}
 
 // runHistory runs history cases (Order == "") and judges them.
 func (p prop) runHistory(d *core.Driver, cases []core.Case, tally bool) []core.Result {
@@ -163,7 +166,7 @@ func judgeHistory(c core.Case, rs []core.Result) core.Result {
 				dd = "digests differ beyond the truncated texts"
 			}
 			out.Status = core.Violation
-			out.Detail = fmt.Sprintf("%s %s: built in a fresh process vs built after %d other sources (order %s): %s", cd.Kind, cd.Origin, len(cd.Hist), histOrders[i], dd)
+			out.Detail = fmt.Sprintf("%s %s: built first in a fresh process vs built after %d other sources in another process (order %s): %s", cd.Kind, cd.Origin, len(cd.Hist), histOrders[i], dd)
 			return out
 		}
 	}
@@ -205,6 +208,22 @@ func goprogConfig() goprog.Config {
 	return cfg
 }
 
+var selfAssign = regexp.MustCompile(`(?m)^\s*(\w+) (\+?=) (.*)$`)
+
+// goprogSafe rejects programs in which a variable is assigned an expression that
+// mentions the variable itself twice (or once with +=): inside a loop that is
+// exponential growth of a string (v = v + v), and the program prints for hours.
+// Over-rejection is harmless.
+func goprogSafe(src string) bool {
+	for _, m := range selfAssign.FindAllStringSubmatch(src, -1) {
+		n := len(regexp.MustCompile(`\b`+regexp.QuoteMeta(m[1])+`\b`).FindAllStringIndex(m[3], -1))
+		if m[2] == "+=" && n >= 1 || n >= 2 {
+			return false
+		}
+	}
+	return true
+}
+
 // genSource draws one source for the history relation.
 func genSource(seed int64, mayFail bool) (source, string) {
 	r := core.Rand(seed, "hist-src")
@@ -217,6 +236,9 @@ func genSource(seed int64, mayFail bool) (source, string) {
 		return source{Kind: "template", Files: files, Main: main}, "const-tmpl"
 	case k < 15:
 		p := goprog.Generate(r, goprogConfig())
+		for try := 0; !goprogSafe(p.Source) && try < 8; try++ {
+			p = goprog.Generate(r, goprogConfig())
+		}
 		return source{Kind: "program", Files: map[string]string{"main.go": p.Source}, GoStmt: true}, "goprog"
 	case k < 18:
 		goStmt := r.Intn(3) == 0
